@@ -121,6 +121,22 @@ impl Visitor<Diagnostic> for LibraryRenderer {
         self.visit_integer(&node.value)
     }
 
+    fn visit_integer_literal(
+        &mut self,
+        node: &IntegerLiteral,
+    ) -> Result<Self::Value, Diagnostic> {
+        // A type prefix is part of the literal: TYPE#value
+        if let Some(data_type) = &node.data_type {
+            self.write_ws(format!("{}#", data_type.as_id().original()).as_str());
+            let start = self.buffer.len();
+            self.visit_signed_integer(&node.value)?;
+            let digits = self.buffer.split_off(start);
+            self.write(digits.trim());
+            return Ok(());
+        }
+        self.visit_signed_integer(&node.value)
+    }
+
     fn visit_real_literal(&mut self, node: &RealLiteral) -> Result<Self::Value, Diagnostic> {
         let mut val = String::new();
         if let Some(data_type) = &node.data_type {
